@@ -8,6 +8,7 @@ mod emu_rv;
 mod emu_x86;
 mod fun_ast;
 mod fuzzrun;
+mod gen_axcut;
 mod gen_fun;
 mod gen_lin;
 mod gen_syntax;
